@@ -127,8 +127,9 @@ def build_node(
     from ml_pipeline_engine.dag_builders.annotation.marks import InputOneOfMark  # noqa: PLC0415
     from ml_pipeline_engine.dag_builders.annotation.marks import RecurrentSubGraphMark  # noqa: PLC0415
     from ml_pipeline_engine.dag_builders.annotation.marks import SwitchCaseMark  # noqa: PLC0415
+    from ml_pipeline_engine.dag_builders.annotation.marks import get_annotations  # noqa: PLC0415
 
-    for param_name, annotation in getattr(process_method, '__annotations__', {}).items():
+    for param_name, annotation in get_annotations(process_method).items():
         if (
             isinstance(annotation, (InputGenericMark, GenericInputMark))
             and param_name not in target_dependencies
@@ -172,7 +173,7 @@ def build_node(
     # the new node too. Only the generic inputs have to be redefined; a dependency may be overridden or given a value.
     method.__annotations__.update({
         param_name: annotation
-        for param_name, annotation in getattr(process_method, '__annotations__', {}).items()
+        for param_name, annotation in get_annotations(process_method).items()
         if isinstance(annotation, (InputMark, SwitchCaseMark, InputOneOfMark, RecurrentSubGraphMark))
         and param_name not in (dependencies_default or {})
     })
